@@ -213,7 +213,7 @@ def check_vectors(ctx, exe, vecs, origin):
                         any(_attr_differs(nodes.get(v), want_nodes[v]) for v in V):
                     ctx.violation("getGraph:%s" % shape, "getGraph returned %s, expected V=%s E=%s" %
                                   (lines[0], sorted(V), sorted(E)), r)
-        if 0 in sids and sids[0] is not None and "cands" in r:
+        if 0 in sids and sids[0] is not None and r.get("cands"):
             # transcription conformance only (DESIGN 7.8): a drift is a warning, never a violation
             bag = _parse_sid(sids[0])
             cands = [sorted((d, PAL[a], c) for d, a, c in cand) for cand in r["cands"]]
